@@ -198,8 +198,13 @@ func ruleC01b(c *Ctx) {
 				return
 			}
 			cal := cc.StaticCallee()
+			rtp := requestTokensParam(p, cal)
 			for k, prm := range cal.Params {
-				if prm.Name() != "requestTokens" || k >= len(cc.Args) {
+				if prm != rtp || rtp == nil || k >= len(cc.Args) || len(cal.Params) < 2 {
+					continue
+				}
+				// only functions that also take a template: the matcher, the root scorer and their drivers
+				if !hasTemplateParam(p, cal) {
 					continue
 				}
 				ok := false
@@ -383,12 +388,7 @@ func ruleC01c(c *Ctx) {
 		c.undecided("-", "token matcher", "-", "no boolean module function taking Route.pathParts found")
 		return
 	}
-	var tokens *ssa.Parameter
-	for _, prm := range m.Params {
-		if prm.Name() == "requestTokens" {
-			tokens = prm
-		}
-	}
+	tokens := requestTokensParam(p, m)
 	if tokens == nil {
 		// second []string parameter
 		n := 0
@@ -559,13 +559,17 @@ func matchPolarity(cond ssa.Value) (matchOnTrue bool, known bool) {
 		case "strings.HasSuffix", "strings.HasPrefix", "strings.EqualFold", "regexp.MatchString", "(*regexp.Regexp).MatchString":
 			return pol, true
 		}
-		if cal := x.Call.StaticCallee(); cal != nil && isBoolFunc(cal) && (strings.Contains(strings.ToLower(cal.Name()), "match")) {
+		// a boolean helper of the module applied to the token: by convention "true" admits the token (the helpers of
+		// this repository are named matches..., isMatch...; the name is not relied upon)
+		if cal := x.Call.StaticCallee(); cal != nil && isBoolFunc(cal) && cal.Pkg != nil && cal.Pkg.Pkg.Path() == modulePath {
 			return pol, true
 		}
 	case *ssa.Extract:
 		if call, ok := x.Tuple.(*ssa.Call); ok && x.Index == 0 {
-			if cal := call.Call.StaticCallee(); cal != nil && strings.Contains(strings.ToLower(cal.Name()), "match") {
-				return pol, true
+			if cal := call.Call.StaticCallee(); cal != nil && cal.Pkg != nil && cal.Pkg.Pkg.Path() == modulePath {
+				if b, ok := x.Type().Underlying().(*types.Basic); ok && b.Kind() == types.Bool {
+					return pol, true
+				}
 			}
 		}
 	}
@@ -638,12 +642,7 @@ func ruleC01d(c *Ctx) {
 		c.undecided("-", "matcher / binder", "-", "token matcher or default path processor not found")
 		return
 	}
-	var tokens *ssa.Parameter
-	for _, prm := range m.Params {
-		if prm.Name() == "requestTokens" {
-			tokens = prm
-		}
-	}
+	tokens := requestTokensParam(p, m)
 	mTaint := map[ssa.Value]bool{}
 	if tokens != nil {
 		mTaint = contentTaint(p, m, tokens)
@@ -893,4 +892,76 @@ func regexHelperOf(p *Program, fn *ssa.Function) *ssa.Function {
 		})
 	}
 	return out
+}
+
+// requestTokensParam: the parameter of fn that receives the request's path tokens. Of its []string parameters it is
+// the one that, at the static call sites, is not fed from a template field (Route.pathParts, <pathExpr>.tokens);
+// the parameter's name is only a tie-break.
+func requestTokensParam(p *Program, fn *ssa.Function) *ssa.Parameter {
+	var cands []*ssa.Parameter
+	for _, prm := range fn.Params {
+		if isStringSlice(prm.Type()) {
+			cands = append(cands, prm)
+		}
+	}
+	if len(cands) == 0 {
+		return nil
+	}
+	if len(cands) == 1 {
+		return cands[0]
+	}
+	template := map[*ssa.Parameter]bool{}
+	for _, e := range p.callGraph().In[fn] {
+		cc := callCommon(e.Site)
+		if cc == nil || cc.StaticCallee() != fn {
+			continue
+		}
+		for k, prm := range fn.Params {
+			if k >= len(cc.Args) || !isStringSlice(prm.Type()) {
+				continue
+			}
+			a := strip(cc.Args[k])
+			if sl, ok := a.(*ssa.Slice); ok {
+				a = strip(sl.X)
+			}
+			if _, f, ok := fieldLoad(a); ok && (f.Name() == "pathParts" || f.Name() == "tokens") {
+				template[prm] = true
+			}
+		}
+	}
+	var rest []*ssa.Parameter
+	for _, prm := range cands {
+		if !template[prm] {
+			rest = append(rest, prm)
+		}
+	}
+	if len(rest) == 1 {
+		return rest[0]
+	}
+	for _, prm := range cands {
+		if prm.Name() == "requestTokens" {
+			return prm
+		}
+	}
+	return nil
+}
+
+// hasTemplateParam: fn (or what it is handed at its call sites) works on a template: one of its parameters is a
+// candidate collection, a *WebService, or a []string fed from a template field.
+func hasTemplateParam(p *Program, fn *ssa.Function) bool {
+	for _, prm := range fn.Params {
+		if isCandidateSliceType(prm.Type()) || isPtrToRestful(prm.Type(), "WebService") {
+			return true
+		}
+		if sl, ok := prm.Type().Underlying().(*types.Slice); ok && isPtrToRestful(sl.Elem(), "WebService") {
+			return true
+		}
+	}
+	n := 0
+	for _, prm := range fn.Params {
+		if isStringSlice(prm.Type()) {
+			n++
+		}
+	}
+	return n >= 2
 }
